@@ -207,6 +207,27 @@ func (e *Enc) protectedComps(m *Monitor) []*Comp {
 		cur := t
 		elems := false
 		mapc := false
+		if strings.HasPrefix(p, "all(") && strings.HasSuffix(p, ")") {
+			// all(T): every field of struct type T (of any object)
+			if st := e.resolveGoType(p[4:len(p)-1], m.Pkg, token.NoPos); st != nil {
+				var comps []*Comp
+				var refs []string
+				if _, ok := st.Underlying().(*types.Struct); ok {
+					e.collectStructComps(st, "nil", &comps, &refs)
+					out = append(out, comps...)
+				}
+			}
+			continue
+		}
+		if strings.HasPrefix(p, "allmaps(") && strings.HasSuffix(p, ")") {
+			if mt0 := e.resolveGoType(p[8:len(p)-1], m.Pkg, token.NoPos); mt0 != nil {
+				if mt, ok := mt0.Underlying().(*types.Map); ok {
+					d, v, l := e.mapComps(mt)
+					out = append(out, d, v, l)
+				}
+			}
+			continue
+		}
 		if strings.HasPrefix(p, "elems(") && strings.HasSuffix(p, ")") {
 			elems = true
 			p = p[6 : len(p)-1]
